@@ -10,10 +10,16 @@
 -/
 import GoMC.Model.ChatNBT
 import GoMC.Lemmas.NBTRoundTrip
+import GoMC.Lemmas.NBTFragment
 set_option linter.unusedSimpArgs false
 namespace GoMC.Lemmas.ChatNBT
 open GoMC GoMC.Rd GoMC.Spec GoMC.Model GoMC.Model.NBT GoMC.Model.Go GoMC.Model.ChatNBT GoMC.Lemmas.NBTDecode GoMC.Lemmas.NBTTyped
 open GoMC.Spec (NBT encPayload encList encKvs encString)
+
+/-- (moved here when the NBT package reorganised its lemma files) -/
+theorem set_append_length {α : Type} (pre : List α) (x r : α) (post : List α) :
+    (pre ++ x :: post).set pre.length r = pre ++ r :: post := by simp
+
 
 def oFld (name : Bytes) (i : Nat) (ty : GoType) (om : Bool) : Fld :=
   { name, tagged := true, index := [i], typ := ty, omitEmpty := om, asList := false }
